@@ -413,7 +413,7 @@ def check_consumers(facts, res):
                 if t.callee is not None and t.callee.trait == ADAPTER_TRAIT and t.callee.name == "read_object":
                     k = arg_term(loader, t, 1, 20)
                     cs = [x[2] for x in walk(k) if x[0] == "const" and x[1] == "str"]
-                    pk = any(x[0] == "param" and x[2] == "pack" for x in walk(k))
+                    pk = any(x[0] == "param" and x[1] == 2 for x in walk(k))
                     appended = cs[0] if cs and pk else None
         uses_loader = any(t.callee is not None and t.callee.name == "try_load_pack" and
                           contains_call(arg_term(b, t, 1, 30), "list_objects") for bi, t in b.calls())
